@@ -14,9 +14,10 @@ def tasks(tier):
         for d in range(D):
             T.append(Task('CubicSplineND', 'computeLUAndSolve', 1, {'DIM': D}, gen_options={'focus': d}, label='DIM=%d,coord=%d' % (D, d)))
             T.append(Task('CubicSplineND', 'solveSpline', 0, {'DIM': D}, gen_options={'focus': d}, label='DIM=%d,coord=%d' % (D, d)))
-        for cls in ('QuinticSplineND',):
-            for d in range(D):
+        for cls in ('QuinticSplineND', 'SepticSplineND'):
+            for d in (range(D) if tier == 'thorough' else [0]):
                 T.append(Task(cls, 'solveInternalDerivatives', None, {'DIM': D}, gen_options={'focus': d}, label='DIM=%d,coord=%d' % (D, d)))
+                T.append(Task(cls, 'solveQuintic' if cls == 'QuinticSplineND' else 'solveSepticSpline', 0, {'DIM': D}, gen_options={'focus': d}, label='DIM=%d,coord=%d' % (D, d)))
     return T
 
 
